@@ -20,11 +20,20 @@ exactly that rule at one randomly chosen place:
   single-len         a normal code with a single used symbol whose length is 2..15         (documented strictness, libwebp accepts)
   clc-single-len     the same for the 19-symbol code-length code
 
+  pal-width          after a colour-indexing transform with 2,3,4,5,16 or 17 colours the rest of the stream is sized with the pixel
+                     packing of the NEIGHBOURING palette class (an off-by-one in the 2 / 4 / 16 thresholds)
+  block-size         one sub-image sized with block bits + 1 or + 3 instead of + 2, or with floor instead of ceiling division
+  early-fill         a sub-image whose green code has a single literal but whose red/blue/alpha codes do not: only the first pixel is
+                     written, as if a single-symbol green code alone filled the image
+(the last three are streams a reader with the corresponding arithmetic slip would accept; they are invalid for the specification
+whenever the slip changes a pixel count)
+
 corner(rng, name) builds the specification corner cases named in C08."""
 from . import _c19_vp8l as V
 
 VIOLATIONS = ["dup-transform", "cache-bits", "symbol-count", "repeat-overrun", "incomplete", "oversubscribed", "empty",
-              "outside-alphabet", "backref-start", "backref-end", "predictor", "single-len", "clc-single-len"]
+              "outside-alphabet", "backref-start", "backref-end", "predictor", "single-len", "clc-single-len",
+              "pal-width", "block-size", "early-fill"]
 # violations that libwebp accepts (documented strictness of webpsan)
 STRICTNESS = {"predictor", "single-len", "clc-single-len"}
 
@@ -233,6 +242,11 @@ def write_image(bw, rng, width, height, role, inject=None, groups_max=None, zero
         if role == "meta" and rng.random() < 0.05:
             rs = [0, 1]                                  # group indices above 255
         bs, as_ = pick(0, 255, rng.choice([1, 2, 40, 256])), pick(0, 255, rng.choice([1, 2, 40, 256]))
+    if inject == "early-fill":
+        lit, lens_syms, csyms = [rng.randint(0, green_max)], [], []
+        rs = [0, 1] if role == "meta" else rng.sample(range(256), rng.choice([2, 3, 9]))
+        bs, as_ = rng.sample(range(256), rng.choice([1, 2, 5])), rng.sample(range(256), rng.choice([1, 2]))
+        dsyms = [rng.randrange(40)]
     bad_lit = None
     if inject == "predictor":
         bad_lit = rng.choice([14, 15, 16, 17, 29, 30, 31, 32, 100, 255])
@@ -347,6 +361,8 @@ def write_image(bw, rng, width, height, role, inject=None, groups_max=None, zero
             bw.code(A[rng.choice(as_)])
             max_group = max(max_group, rr << 8 | g)
             idx = n if (glen + arb == 0) else idx + 1
+            if inject == "early-fill":
+                return {"injected": n > 1, "max_group": max_group}
         tokens += 1
     return {"injected": False, "complete": idx >= n, "max_group": max_group, "tokens": tokens}
 
@@ -363,6 +379,19 @@ def write_groups(bw, rng, count, cache_len, inject=None):
                 k = rng.choice([1, 2])
             syms = rng.sample(range(a), k)
             write_code(bw, rng, a, V.make_code(rng, syms, maxlen, rng.random() < .3), inject=code_inj if j == j_inj else None)
+
+
+def sub_dims(rng, width, height, b, slip):
+    """dimensions of a sub-image with block bits b; slip: size it wrongly (block-size violation)"""
+    if not slip:
+        bs = 1 << (b + 2)
+        return ceil_div(width, bs), ceil_div(height, bs)
+    k = rng.choice(["plus1", "plus3", "floor"])
+    if k == "floor":
+        bs = 1 << (b + 2)
+        return max(1, width // bs), max(1, height // bs)
+    bs = 1 << (b + (1 if k == "plus1" else 3))
+    return ceil_div(width, bs), ceil_div(height, bs)
 
 
 def block_bits_for(rng, w, h, budget):
@@ -404,6 +433,27 @@ def build(rng, violate=None, size=None, order=None, pixel_budget=2500, meta=None
             use_meta = True
             places.append(("m", 0))
         target = rng.choice(places)
+    elif violate == "early-fill":
+        if not places:
+            use_meta = True
+            places.append(("m", 0))
+        target = rng.choice(places)
+    elif violate == "pal-width":
+        if 3 not in order:
+            order.insert(rng.randrange(len(order) + 1), 3)
+        if not any(t in (0, 1) for t in order[order.index(3) + 1:]):
+            use_meta = True
+        if W < 40:
+            W = rng.randint(40, 300)
+            width = W
+    elif violate == "block-size":
+        if not places or all(k == "t" and order[i] == 3 for k, i in places):
+            use_meta = True
+            places.append(("m", 0))
+        target = rng.choice([pl for pl in places if not (pl[0] == "t" and order[pl[1]] == 3)])
+        if W < 40 or H < 40:
+            W, H = rng.randint(40, 300), rng.randint(40, 300)
+            width = W
     elif violate == "cache-bits":
         target = rng.choice(places + [("c", 0)])
     elif violate is not None:
@@ -417,16 +467,21 @@ def build(rng, violate=None, size=None, order=None, pixel_budget=2500, meta=None
         if t in (0, 1):
             b = block_bits_for(rng, width, H, pixel_budget) if not big_fill else rng.choice([0, 1])
             bw.put(b, 3)
-            bs = 1 << (b + 2)
-            write_image(bw, rng, ceil_div(width, bs), ceil_div(H, bs), "predictor" if t == 0 else "data", inject=inj,
+            sw, sh = sub_dims(rng, width, H, b, inj == "block-size")
+            write_image(bw, rng, sw, sh, "predictor" if t == 0 else "data", inject=inj,
                         zero_len=(rng.choice([True, "cache"]) if big_fill else (rng.random() < 0.08)),
                         cache_bits=(rng.randint(1, 11) if big_fill and rng.random() < .5 else None))
         elif t == 3:
             ncol = rng.choice([1, 2, 3, 4, 5, 16, 17, 100, 256])
+            if violate == "pal-width":
+                ncol = rng.choice([2, 3, 4, 5, 16, 17])
             bw.put(ncol - 1, 8)
             write_image(bw, rng, ncol, 1, "data", inject=inj)
             if t not in seen:
-                width = ceil_div(width, 8 if ncol <= 2 else 4 if ncol <= 4 else 2 if ncol <= 16 else 1)
+                factor = 8 if ncol <= 2 else 4 if ncol <= 4 else 2 if ncol <= 16 else 1
+                if violate == "pal-width":
+                    factor = {2: 4, 3: 8, 4: 2, 5: 4, 16: 1, 17: 2}[ncol]
+                width = ceil_div(width, factor)
         seen.add(t)
     bw.put(0, 1)
     if target == ("c", 0):
@@ -445,9 +500,11 @@ def build(rng, violate=None, size=None, order=None, pixel_budget=2500, meta=None
     if use_meta:
         bw.put(1, 1)
         b = block_bits_for(rng, width, H, pixel_budget) if not big_fill else rng.choice([0, 1])
+        if violate in ("pal-width", "block-size"):
+            b = rng.choice([0, 0, 1])
         bw.put(b, 3)
-        bs = 1 << (b + 2)
-        f = write_image(bw, rng, ceil_div(width, bs), ceil_div(H, bs), "meta", inject=violate if target == ("m", 0) else None,
+        sw, sh = sub_dims(rng, width, H, b, violate == "block-size" and target == ("m", 0))
+        f = write_image(bw, rng, sw, sh, "meta", inject=violate if target == ("m", 0) else None,
                         zero_len=big_fill)
         groups = f["max_group"] + 1
         facts["groups"] = groups
